@@ -467,7 +467,14 @@ func (s *Sim) keyTerms(c *Cut, st *State) []*Term {
 		out = append(out, t)
 	}
 	if s.cfg.Resync {
-		out = append(out, Ite(s.resyncing(c, st), I64(1), I64(0)))
+		rs := s.resyncing(c, st)
+		out = append(out, Ite(rs, I64(1), I64(0)))
+		rsb := st.ghost["rsb"]
+		if rsb == nil {
+			rsb = BVI(8, 0)
+		}
+		// which closing byte is being re-read (0 when not resyncing)
+		out = append(out, Ite(rs, ZeroExt(56, rsb), I64(0)))
 	}
 	out = append(out, s.fp.ex.Rq(s.arr, s.posTerm(c, st)))
 	return out
@@ -590,7 +597,10 @@ func (s *Sim) fixedAtoms(c *Cut) []*Atom {
 				k = Ite(And(s.resyncing(c, st), Or(Eq(rsb, BVI(8, ']')), Eq(rsb, BVI(8, '}')))), I64(1), I64(0))
 			}
 		}
-		return Eq(top, Add(Sub(ex.Rdepth(s.arr, s.posTerm(c, st)), I64(s.cfg.Delta)), k))
+		d := ex.Rdepth(s.arr, s.posTerm(c, st))
+		// traversal machines (Delta = 1): the traversed container itself is not on the code's stack
+		rel := Ite(Sle(I64(s.cfg.Delta), d), Sub(d, I64(s.cfg.Delta)), I64(0))
+		return Eq(top, Add(rel, k))
 	}))
 	if s.cfg.Resync {
 		out = append(out, mk("sim:resync-byte", func(st *State) *Term {
@@ -607,7 +617,8 @@ func (s *Sim) fixedAtoms(c *Cut) []*Atom {
 		d := ex.Rdepth(s.arr, pos)
 		ctx := ex.ctxAt(s.arr, pos, d)
 		co := App("spec.ctxof", BV(8), q)
-		return And(Or(Eq(co, q8(3)), Eq(ctx, co)), Sle(I64(0), d))
+		// the context of the state is the innermost open container; "top" context iff depth 0
+		return And(Or(Eq(co, q8(3)), And(Eq(ctx, co), Eq(Eq(co, q8(ctxKindTop)), Eq(d, I64(0))))), Sle(I64(0), d))
 	}))
 	out = append(out, mk("sim:done-end==pos", func(st *State) *Term {
 		pos := s.posTerm(c, st)
